@@ -5,6 +5,7 @@ package main
 // message (size | 0x00 | hsize | pairs | Thrift payload) is expected.
 
 import (
+	"bytes"
 	"context"
 	"encoding/binary"
 	"encoding/hex"
@@ -261,11 +262,16 @@ type spec struct {
 	base  int    // index into bases(role); -1 = raw bytes
 	raw   []byte // base == -1
 	mut   func(fi *frameInfo) []byte
+	// lazy, when set, builds raw bytes on demand (big inputs); label stands for
+	// the bytes in logs and witnesses
+	lazy  func() []byte
+	label string
 	// rebuild, when set, builds the whole frame itself (header-level changes)
 	rebuild func(role, proto string, b baseFrame, opid string) []byte
 }
 
 type input struct {
+	Label string // non-empty: what to log instead of the hex of Data
 	Class string
 	Base  int // base the call/canary is shaped after (0 for raw inputs)
 	Data  []byte
@@ -602,6 +608,35 @@ func bigSpecs(role string) []spec {
 	return out
 }
 
+// longRunSpecs: on the stream entry points, one long unbroken run of a small
+// repeated unit per protocol: empty frames, minimal frames with an empty
+// header block, and a unit the receiver skips and carries on after (a
+// response nobody waits for / a oneway request).  Whatever a receiver does per
+// unit - recursion, allocation, bookkeeping - it does millions of times.
+func longRunSpecs(entry, proto string) []spec {
+	if entry != "adapter-client-response" && entry != "simple-server-request" {
+		return nil
+	}
+	var unit []byte
+	total := 16 << 20
+	switch proto {
+	case "binary":
+		unit = []byte{0, 0, 0, 0}
+	case "compact":
+		unit = wire.Frame([]byte{0, 0, 0, 0, 0})
+	default:
+		total = 8 << 20
+		if entry == "adapter-client-response" {
+			unit = validFrame(roleResp, proto, bases(roleResp)[0], fenceOpid)
+		} else {
+			unit = validFrame(roleReq, proto, bases(roleReq)[6], fenceOpid) // oneway fire
+		}
+	}
+	n := total / len(unit)
+	return []spec{{class: "longrun", base: -1, label: fmt.Sprintf("rle:%s*%d", hex.EncodeToString(unit), n),
+		lazy: func() []byte { return bytes.Repeat(unit, n) }}}
+}
+
 // prngSpecs builds class (iii).
 func prngSpecs(role string, rng *rand.Rand, nFlip, nSplice int) []spec {
 	nb := len(bases(role))
@@ -772,6 +807,7 @@ func specList(entry, proto string, thorough bool, rng *rand.Rand) []spec {
 		out = append(out, st...)
 	}
 	out = append(out, bigSpecs(role)...)
+	out = append(out, longRunSpecs(entry, proto)...)
 	rest := total - len(out)
 	if rest < 300 {
 		rest = 300
@@ -783,6 +819,9 @@ func specList(entry, proto string, thorough bool, rng *rand.Rand) []spec {
 // materialize turns spec s into the bytes of input idx.
 func materialize(entry, proto string, s spec, idx int) input {
 	role := roleOf(entry)
+	if s.lazy != nil {
+		return input{Class: s.class, Base: 0, Data: s.lazy(), Label: s.label}
+	}
 	if s.base < 0 {
 		return input{Class: s.class, Base: 0, Data: s.raw}
 	}
